@@ -84,6 +84,21 @@ def check_layer(name, valves, dup):
         except Exception as ex:
             return ['valve_segments raised %s: %s' % (type(ex).__name__, ex)]
     bad = []
+    # the same layer on an UNDIRECTED graph object that was already used for another layer must give the same answer
+    # (valve_segments must not edit its caller's graph)
+    UG = graph(name).to_undirected()
+    full = pd.DataFrame({'link': [l for l, n in pairs(name)], 'node': [n for l, n in pairs(name)]}, columns=['link', 'node'])
+    with warnings.catch_warnings():
+        warnings.simplefilter('ignore')
+        try:
+            TP.valve_segments(UG, full)
+            ns2, ls2, _ = TP.valve_segments(UG, layer.copy())
+            if sorted(ls2.index) != sorted(ls.index) or sorted(ns2.index) != sorted(ns.index):
+                bad.append('second call on the same undirected graph labels %r / %r, first-use labels %r / %r' % (sorted(ns2.index), sorted(ls2.index), sorted(ns.index), sorted(ls.index)))
+            elif any((ns2[a] == ns2[b]) != (ns[a] == ns[b]) for a in ns.index for b in ns.index) or any((ls2[a] == ls2[b]) != (ls[a] == ls[b]) for a in ls.index for b in ls.index):
+                bad.append('second call on the same undirected graph gives a different partition')
+        except Exception as ex:
+            bad.append('second call on the same undirected graph raised %s: %s' % (type(ex).__name__, ex))
     seg = {}
     for n in ns.index:
         seg['N_' + n] = int(ns[n])
